@@ -1194,3 +1194,11 @@ package vanguard
 //@ func (restServerProtocol).requestLine
 //@   opt implicit=assume
 //@   ensures[C01,C02] err == nil ==> includeBody == (len(op.restTarget.requestBodyFields) > 0 || op.restTarget.requestBodyFields != nil) && method == op.restTarget.method
+
+// C04: a backend response with a non-OK HTTP status never turns into a successful RPC, whatever its
+// body says: without an error code in the body the code comes from the HTTP status.
+//@ func httpErrorFromResponse
+//@   requires src != nil
+//@   requires[C14] owned(src)
+//@   ensures[C04,C09] statusCode != 200 ==> result != nil && code(result) != 0
+//@   ensures[C04] statusCode == 200 ==> result == nil
